@@ -26,9 +26,6 @@ example : rangeAssign exMembers exParts 1 10 = [0] ∧ rangeAssign exMembers exP
 example : rrAssign exMembers exParts 1 10 = [0, 3] ∧ rrAssign exMembers exParts 1 20 = [1, 4] ∧
     rrAssign exMembers exParts 1 30 = [2] := by decide
 
-private theorem wf_split {ms : List Member} (h : WellFormed ms) : IdsDistinct ms ∧ TopicsOnce ms :=
-  ⟨(idsDistinct_iff ms).mpr h.1, h.2⟩
-
 /-! ## 1. Range -/
 
 /-- Range hands a subscriber the contiguous run `[i·P/M, (i+1)·P/M)` of the listed partitions, `i` its rank by id -/
